@@ -323,6 +323,15 @@ class Analyzer:
             if isinstance(c.func, ast.Name) and (c.func.id in env or c.func.id in outer_params or c.func.id in outer_locals):
                 return holding(argp)
             if isinstance(c.func, ast.Call):
+                _, inner_name = self.resolve(m, q, c.func.func, local_funcs)
+                if inner_name is not None and inner_name.split(".")[-1] in ("wraps", "update_wrapper") and argp and c.func.args:
+                    # functools.wraps(wrapped)(wrapper) returns `wrapper` itself after
+                    # wrapper.__dict__.update(wrapped.__dict__): the attribute VALUES of `wrapped`
+                    # (e.g. its __info__ dict) are shared, not copied
+                    w = roots(c.func.args[0])
+                    shared = {r for r in (w[0] | w[1] | w[2]) if r != "fresh"}
+                    a0 = argp[0]
+                    return (set(a0[0]), set(a0[1]) | shared, set(a0[2]) | shared)
                 return holding(argp)
             return ({"unknown"}, {"unknown"} | allargs, {"unknown"} | allargs)
 
